@@ -78,7 +78,8 @@ SPEC = {
         "sourceLocation_eq", "location_in_range", "line_shift_located", "later_files_unaffected",
         "earlier_files_unaffected", "sourceLine_eq_lineAround", "writeMessage_located", "writeMessage_unlocated",
         "message_render_shift", "boundary_preserved", "trivia_insensitive", "toy_lexesAs", "toy_adjacent",
-        "toy_distant", "angle_bracket_not_closed"]],
+        "toy_distant", "angle_bracket_not_closed", "macro_call_gap_inline_insensitive",
+        "macro_call_gap_linebreak_witness", "macro_call_gap_insensitive_if_fixed", "empty_argument_linebreak_witness"]],
     "harness": "c14",
     "nontrivial": nontrivial,
     "finding_key": finding_key,
